@@ -90,7 +90,7 @@ PROPS = {
                   "Orbit.C06.later_put_wins", "Orbit.C06.later_delete_wins", "Orbit.C06.own_write_listed_last",
                   "Orbit.C06.stale_key_survives", "Orbit.C06.concurrent_updates_never_leave_a_stale_view",
                   "Orbit.C06.unlocked_copy_left_a_stale_view"],
-        families=[("kv", 120, 4000, 16), ("concurrent", 20, 500, 6)],
+        families=[("kv", 120, 4000, 16), ("concurrent", 20, 500, 6), ("reload", 40, 1000, 12)],
         corr_fields={"values", "idx", "ack", "time", "next"},
         nontrivial=nt_kv,
         rule="PRNG Put/Delete histories (repeated keys, deletes of absent keys, re-puts, empty/binary values, unicode and empty keys) by 1-4 writers with interleaved Sync; Get/All compared with lwwReplay(Values()) after every step on every replica; non-trivial = >=2 writers, >=1 merge, a key written twice",
@@ -101,7 +101,7 @@ PROPS = {
         module="OrbitModel.Properties.C07",
         theorems=["Orbit.C07.index_tracks_replay", "Orbit.C07.index_step", "Orbit.C07.pinned_tree_violates",
                   "Orbit.C07.get_returns_exactly_matching"],
-        families=[("doc", 120, 4000, 14)],
+        families=[("doc", 120, 4000, 14), ("reload", 40, 1000, 12)],
         corr_fields={"values", "idx", "ack", "docget"},
         nontrivial=nt_doc,
         rule="PRNG histories mixing Put/PutBatch/PutAll/Delete on overlapping mixed-case ASCII keys by 1-4 writers with interleaved Sync; index compared with docReplay(Values()) after every step; Get over every option combination and Query over a predicate family compared with the matching documents of the index",
